@@ -18,18 +18,21 @@ import (
 	"encoding/binary"
 )
 
-func (s *Segment) getDocStoredMetaAndUnCompressed(docNum uint64) (meta, data []byte, err error) {
-	_, storedOffset, n, metaLen, dataLen, err := s.getDocStoredOffsets(docNum)
+// getDocStoredMetaAndUnCompressed decompresses the chunk holding the document
+// into the buffer of the caller's visit context, never into the segment:
+// segments are shared by concurrent and re-entrant readers.
+func (s *Segment) getDocStoredMetaAndUnCompressed(vdc *visitDocumentCtx, docNum uint64) (meta, data []byte, err error) {
+	_, storedOffset, n, metaLen, dataLen, err := s.getDocStoredOffsets(vdc, docNum)
 	if err != nil {
 		return nil, nil, err
 	}
 
-	meta = s.storedFieldChunkUncompressed[int(storedOffset+n):int(storedOffset+n+metaLen)]
-	data = s.storedFieldChunkUncompressed[int(storedOffset+n+metaLen):int(storedOffset+n+metaLen+dataLen)]
+	meta = vdc.chunk[int(storedOffset+n):int(storedOffset+n+metaLen)]
+	data = vdc.chunk[int(storedOffset+n+metaLen):int(storedOffset+n+metaLen+dataLen)]
 	return meta, data, nil
 }
 
-func (s *Segment) getDocStoredOffsets(docNum uint64) (indexOffset, storedOffset, n, metaLen, dataLen uint64, err error) {
+func (s *Segment) getDocStoredOffsets(vdc *visitDocumentCtx, docNum uint64) (indexOffset, storedOffset, n, metaLen, dataLen uint64, err error) {
 	indexOffset, storedOffset, err = s.getDocStoredOffsetsOnly(docNum)
 	if err != nil {
 		return 0, 0, 0, 0, 0, err
@@ -43,20 +46,19 @@ func (s *Segment) getDocStoredOffsets(docNum uint64) (indexOffset, storedOffset,
 	if err != nil {
 		return 0, 0, 0, 0, 0, err
 	}
-	s.storedFieldChunkUncompressed = s.storedFieldChunkUncompressed[:0]
-	s.storedFieldChunkUncompressed, err = ZSTDDecompress(s.storedFieldChunkUncompressed[:cap(s.storedFieldChunkUncompressed)], compressed)
+	vdc.chunk, err = ZSTDDecompress(vdc.chunk[:cap(vdc.chunk)], compressed)
 	if err != nil {
 		return 0, 0, 0, 0, 0, err
 	}
 
 	// the varints are read from the rest of the chunk: a short record at
 	// the end of the chunk has fewer than MaxVarintLen64 bytes after it
-	metaLenData := s.storedFieldChunkUncompressed[int(storedOffset):]
+	metaLenData := vdc.chunk[int(storedOffset):]
 	var read int
 	metaLen, read = binary.Uvarint(metaLenData)
 	n += uint64(read)
 
-	dataLenData := s.storedFieldChunkUncompressed[int(storedOffset+n):]
+	dataLenData := vdc.chunk[int(storedOffset+n):]
 	dataLen, read = binary.Uvarint(dataLenData)
 	n += uint64(read)
 
